@@ -12,6 +12,15 @@ EPI_PROFILE = {
 
 
 def generate(rng, i):
+    if rng.random() < 0.15:
+        # a futures-chain world (C11's generator: month offsets, rolls): the target is reached on the contract the
+        # chain stands for at execution time, and every other member is closed
+        from tesim.props import c11
+        for _ in range(6):
+            sc = c11.generate(rng, i)
+            if not sc.get("construct_only") and sc["envs"][0]["space"].get("margin", 0.0) == 0.0:
+                sc["chain_world"] = True
+                return sc
     env = gen_epi.gen_env(rng, EPI_PROFILE)
     sp = env["space"]
     n = len(env["contracts"]) + (1 if sp.get("with_cash") else 0)
@@ -74,6 +83,9 @@ def execute(scenario):
             src = k - delay
             from tesim.props.c08 import uncanon
             want = epicheck.allocation_of_action(h, uncanon(acts[src])) if src >= 0 else epicheck.null_allocation(h)
+            if any(isinstance(key, tuple) for key in want):
+                want = epicheck.resolve_allocation(h, want, r["env_now"])
+                probe("env_chain_target_resolved_by_model")
             trades += len(reb["trades"])
             nlv_pre = reb["pre"]["nlv"]
             tol = 1e-9 * max(abs(nlv_pre), led.scale)
